@@ -15,8 +15,8 @@ import (
 //
 //	read(who, d)   lookup of key d through the snapshot / the store: walks
 //	               down to depth d, fetching what is not in memory yet
-//	overwrite      the store overwrites key 1 (same priority): the top node is
-//	               replaced by a copy
+//	overwrite(d)   the store overwrites key d (same priority): the nodes on the
+//	               path down to it are replaced by copies
 //	close(who)
 //
 // All calls are logged as Trace_Store events (results are checked against the
@@ -127,7 +127,7 @@ func lazyHistory(w *World, h []lazyOp, depth int) bool {
 			}
 		case "overwrite":
 			v, _ := w.U.NewValue(w.rng, false, nil)
-			if !w.SetKV(m, name, w.U.Keys[0], v, int32(1000-1), false, nil) {
+			if !w.SetKV(m, name, w.U.Keys[o.Depth-1], v, int32(1000-o.Depth), false, nil) {
 				return false
 			}
 		case "close":
